@@ -60,10 +60,6 @@ def opt(t):
     return T('optional', t)
 
 
-def hashable_leaf(tk):
-    return True        # every leaf kind of the spelling table loads to a hashable value
-
-
 # --------------------------------------------------------------------------- v1
 
 # name -> (type builder, document builder, leaf extractor, {flags})
@@ -455,7 +451,7 @@ def env_std(value):
                 strings.update([a.strip(), b.strip()])
     for s, r in jt:
         if r is not None:
-            st.add_json(_plain(json.loads(s)))
+            st.add_json(json.loads(s))
     for s in strings:
         st.add_str(s)
         if s.replace('.', '', 1).isdigit():
@@ -466,11 +462,6 @@ def env_std(value):
     t = st.build()
     t['json_loads'] = json_table(strings)
     return t
-
-
-def _plain(v):
-    """json.loads result with NaN / Infinity kept (StdTables.add_json accepts floats)"""
-    return v
 
 
 class _Limited:
@@ -706,19 +697,20 @@ FUZZ_SEPS = [',', ', ', ' ,', '=', ' = ', ',,', '']
 
 def fuzz_type(rng, leaf):
     k = rng.randrange(14)
+    hashed = leaf['k'] != 'decimal'     # the shared model compares Decimal set elements / dict keys by text, Python by value (1E+3 == 1000)
     if k == 0:
         return leaf
     if k == 1:
         return opt(leaf)
     if k == 2:
-        return T(rng.choice(['list', 'set', 'frozenset', 'deque']), leaf)
+        return T(rng.choice(['list', 'set', 'frozenset', 'deque'] if hashed else ['list', 'deque']), leaf)
     if k == 3:
         return T('vtuple', leaf)
     if k == 4:
         return T('tuple', leaf, leaf)
     if k == 5:
         return T('dict', T('str'), leaf)
-    if k == 6:
+    if k == 6 and hashed:
         return T('dict', leaf, T('str'))
     if k == 7:
         return {'k': 'namedtuple', 'name': model.fresh('NT'), 'fields': [['a', leaf, None], ['b', T('str'), ['lit', 'dflt']]]}
